@@ -10,6 +10,89 @@ import CoapLite.Lemmas.OptMapExtra
 namespace CoapLite.Block
 open Codec Spec
 
+theorem fieldLen_mono {a b : Nat} (h : a ≤ b) : fieldLen a ≤ fieldLen b := by
+  unfold fieldLen
+  split <;> split <;> (try split) <;> (try split) <;> omega
+
+theorem fieldLen_le_one {a : Nat} (h : a < 269) : fieldLen a ≤ 1 := by
+  unfold fieldLen
+  split <;> (try split) <;> omega
+
+theorem fieldLen_small {a : Nat} (h : a ≤ 12) : fieldLen a = 0 := by
+  unfold fieldLen
+  split <;> omega
+
+/-- moving the running option number closer to the head only shrinks the encoding -/
+theorem wireOptsLen_prev_mono (os : List (Nat × Bytes)) (prev n : Nat) (hp : prev ≤ n)
+    (h : ∀ o ∈ os, n ≤ o.1) : wireOptsLen n os ≤ wireOptsLen prev os := by
+  cases os with
+  | nil => simp [wireOptsLen]
+  | cons o rest =>
+    obtain ⟨k, w⟩ := o
+    have hk : n ≤ k := h (k, w) (by simp)
+    have := fieldLen_mono (a := k - n) (b := k - prev) (by omega)
+    simp only [wireOptsLen]
+    omega
+
+/-- instances of one option number followed by further options -/
+theorem wireOptsLen_map_append (k : Nat) (vs : List Bytes) (os : List (Nat × Bytes)) :
+    wireOptsLen k (vs.map (fun v => (k, v)) ++ os) =
+      wireOptsLen k (vs.map (fun v => (k, v))) + wireOptsLen k os := by
+  induction vs with
+  | nil => simp [wireOptsLen]
+  | cons v vs ih =>
+    simp only [List.map_cons, List.cons_append, wireOptsLen, ih]
+    omega
+
+theorem optsLen_insert_le_aux (v : Bytes) (n : Nat) (hv : v.length ≤ 12) (hn : n < 269) :
+    ∀ (m : OptMap) (prev : Nat), m.Sorted → prev ≤ n → (∀ kv ∈ m, prev ≤ kv.1) → m.get n = none →
+      wireOptsLen prev (m.insert n [v]).flatten ≤ wireOptsLen prev m.flatten + 2 + v.length := by
+  intro m
+  induction m with
+  | nil =>
+    intro prev _ hp _ _
+    have h1 := fieldLen_le_one (a := n - prev) (by omega)
+    have h2 := fieldLen_small hv
+    simp [OptMap.insert, OptMap.flatten, wireOptsLen]
+    omega
+  | cons kv rest ih =>
+    intro prev hs hp hge hg
+    obtain ⟨k, vs⟩ := kv
+    have hs' := (OptMap.X.sorted_cons k vs rest).1 hs
+    have hkn : ¬ k = n := by
+      intro h; simp [OptMap.get, h] at hg
+    have hg' : OptMap.get rest n = none := by
+      simpa [OptMap.get, hkn] using hg
+    by_cases hlt : n < k
+    · -- new entry in front
+      have h1 := fieldLen_le_one (a := n - prev) (by omega)
+      have h2 := fieldLen_small hv
+      have hmono := wireOptsLen_prev_mono (OptMap.flatten ((k, vs) :: rest)) prev n hp (by
+        intro o ho
+        obtain ⟨kv, hkv, hk⟩ := OptMap.X.mem_flatten_key _ o ho
+        rcases List.mem_cons.1 hkv with h | h
+        · subst h; simp at hk; omega
+        · have := hs'.1 kv h; omega)
+      have hins : OptMap.insert ((k, vs) :: rest) n [v] = (n, [v]) :: (k, vs) :: rest := by
+        simp [OptMap.insert, hlt]
+      rw [hins, OptMap.X.flatten_cons]
+      simp only [List.map_cons, List.map_nil, List.cons_append, List.nil_append, wireOptsLen]
+      omega
+    · have hgt : k < n := by omega
+      have hne : ¬ n = k := by omega
+      have hins : OptMap.insert ((k, vs) :: rest) n [v] = (k, vs) :: OptMap.insert rest n [v] := by
+        simp [OptMap.insert, hlt, hne]
+      rw [hins, OptMap.X.flatten_cons, OptMap.X.flatten_cons]
+      have hpk : prev ≤ k := hge (k, vs) (by simp)
+      cases vs with
+      | nil =>
+        simp only [List.map_nil, List.nil_append]
+        exact ih prev hs'.2 hp (fun kv hkv => hge kv (by simp [hkv])) hg'
+      | cons w ws =>
+        have ih' := ih k hs'.2 (by omega) (fun kv hkv => by have := hs'.1 kv hkv; omega) hg'
+        simp only [List.map_cons, List.cons_append, wireOptsLen, wireOptsLen_map_append]
+        omega
+
 /-- inserting one option instance with a short value (no extended length) and a
 number below 269 (at most one extended-delta byte) into a sorted option map that
 does not have that number yet grows the encoded options by at most
@@ -18,13 +101,38 @@ and the delta of the following option only shrinks -/
 theorem optsLen_insert_le (m : OptMap) (n : Nat) (v : Bytes)
     (hs : m.Sorted) (hk : ∀ kv ∈ m, kv.1 ≤ 65535) (hg : m.get n = none)
     (hv : v.length ≤ 12) (hn : n < 269) :
-    wireOptsLen 0 (m.insert n [v]).flatten ≤ wireOptsLen 0 m.flatten + 2 + v.length := by
-  sorry
+    wireOptsLen 0 (m.insert n [v]).flatten ≤ wireOptsLen 0 m.flatten + 2 + v.length :=
+  optsLen_insert_le_aux v n hv hn m 0 hs (Nat.zero_le _) (fun _ _ => Nat.zero_le _) hg
+
+/-- closed form of the wire length of a packet's abstract message -/
+theorem wireLen_toMsg (p : Packet) :
+    wireLen (toMsg p) = 4 + p.token.length + wireOptsLen 0 p.options.flatten +
+      (if sent p then 1 + p.payload.length else 0) := by
+  rw [wireLen, payload_len]; rfl
+
+theorem wireLen_toMsg_nopayload (p : Packet) :
+    wireLen (toMsg { p with payload := [] }) =
+      4 + p.token.length + wireOptsLen 0 p.options.flatten := by
+  rw [wireLen_toMsg]
+  simp [sent]
+
+/-- the payload (with its marker) costs at most `1 + |payload|` -/
+theorem wireLen_toMsg_le (p : Packet) :
+    wireLen (toMsg p) ≤ wireLen (toMsg { p with payload := [] }) + 1 + p.payload.length := by
+  rw [wireLen_toMsg, wireLen_toMsg_nopayload]
+  split <;> omega
 
 /-- the size the handler measures: the message without its payload -/
 theorem computeMessageSize_eq (p : Packet) (size : Nat) (h : computeMessageSize p = .ok size) :
     size = wireLen (toMsg { p with payload := [] }) + p.payload.length := by
-  sorry
+  unfold computeMessageSize at h
+  split at h
+  · rename_i b hb
+    have hl := Codec.enc_length _ _ _ hb
+    simp only [HRes.ok.injEq] at h
+    omega
+  · simp [internal] at h
+  · simp at h
 
 /-- wire length of a message after a block option (value of at most 3 bytes,
 option number 23 or 27) is set and a payload `pl` is put in: at most the
@@ -34,12 +142,27 @@ theorem wireLen_block_message (p : Packet) (n : Nat) (v pl : Bytes)
     (hg : p.getOption n = none) (hv : v.length ≤ 3) (hn : n = block1Num ∨ n = block2Num) :
     wireLen (toMsg { (p.setOption n [v]) with payload := pl }) ≤
       wireLen (toMsg { p with payload := [] }) + 5 + 1 + pl.length := by
-  sorry
+  have hn' : n < 269 := by
+    rcases hn with h | h <;> subst h <;> decide
+  have hins := optsLen_insert_le p.options n v hs hk hg (by omega) hn'
+  have hw := wireLen_toMsg_le { (p.setOption n [v]) with payload := pl }
+  rw [wireLen_toMsg_nopayload] at hw
+  rw [wireLen_toMsg_nopayload]
+  simp only [Packet.setOption] at hw ⊢
+  omega
 
 /-- encoded block values are at most 3 bytes long -/
 theorem enc_length_le_3 (b : BlockValue) (hb : BvOk b) (bs : Bytes) (h : b.enc = .ok bs) :
     bs.length ≤ 3 := by
-  sorry
+  obtain ⟨hnum, hszx⟩ := hb
+  rw [C13.enc_minimal b (by omega)] at h
+  simp only [Res.ok.injEq] at h
+  subst h
+  apply minimalBE_length_le
+  have : (if b.more then 8 else 0) ≤ 8 := by split <;> omega
+  have : b.szx % 8 < 8 := Nat.mod_lt _ (by omega)
+  have : (256 : Nat) ^ 3 = 16777216 := by decide
+  omega
 
 /-- a fragment fits: if the block size was negotiated for a message `p` (payload
 `p.payload`, no block option yet) under budget `M` with at least 16 bytes of
@@ -56,13 +179,29 @@ theorem fragment_fits (p : Packet) (lb : Option BlockValue) (M size : Nat) (b : 
     (hbs : ({ b with more := true } : BlockValue).enc = .ok bs ∨ ({ b with more := false } : BlockValue).enc = .ok bs)
     (hc : chunk.length ≤ b.size) :
     wireLen (toMsg { (p.setOption n [bs]) with payload := chunk }) ≤ M := by
-  sorry
+  have hsize := computeMessageSize_eq p size hsz
+  have hneg' := negotiate_some lb size p.payload.length M b hlb (by omega) hneg
+  obtain ⟨hbv, _, hbud, _, _⟩ := hneg'
+  have hle := hbud h16
+  have hbs3 : bs.length ≤ 3 := by
+    rcases hbs with h | h
+    · exact enc_length_le_3 { b with more := true } ⟨hbv.1, hbv.2⟩ bs h
+    · exact enc_length_le_3 { b with more := false } ⟨hbv.1, hbv.2⟩ bs h
+  have hw := wireLen_block_message p n bs chunk hs hk hg hbs3 hn
+  unfold blockBudget at hle h16
+  simp only [Consts.blockOptionsMaxLength] at hle h16
+  omega
 
 /-- a response the handler leaves unfragmented fits the budget too -/
 theorem unfragmented_fits (p : Packet) (M size : Nat)
     (hsz : computeMessageSize p = .ok size)
     (hneg : negotiate none size p.payload.length M = .ok none) :
     wireLen (toMsg p) ≤ M := by
-  sorry
+  have hsize := computeMessageSize_eq p size hsz
+  have h := (negotiate_none size p.payload.length M (by omega)).1 hneg
+  have hw := wireLen_toMsg_le p
+  unfold blockBudget at h
+  simp only [Consts.blockOptionsMaxLength] at h
+  omega
 
 end CoapLite.Block
